@@ -224,6 +224,12 @@ class Gen:
             sub = dict(sc, depth=sc.get('depth', 0) + 1)
             s1 = self.gen_block(sub, depth - 1, r.randrange(1, 4), in_loop, ret)
             s2 = self.gen_block(sub, depth - 1, r.randrange(0, 3), in_loop, ret) if r.random() < 0.6 else ('skip',)
+            if depth > 1 and r.random() < 0.25:
+                # an else branch that is exactly one if: rendered as an `else if` chain by some styles
+                c2 = self.gen_expr('bool', ed, sc)
+                s2 = ('if', c2, self.gen_block(sub, depth - 2, r.randrange(1, 3), in_loop, ret),
+                      self.gen_block(sub, depth - 2, r.randrange(0, 2), in_loop, ret) if r.random() < 0.5 else ('skip',))
+                self.f('else_if_chain')
             return ('if', c, s1, s2)
         if k < 0.76 and depth > 0:
             # counter-driven while: let mut c = 0  while (< c K) { set c (+ c 1) ... }
@@ -419,6 +425,9 @@ class Style:
         self.kind = kind
         self.rng = rng or random.Random(0)
 
+    def else_if_chain(self):
+        return self.rng.random() < 0.6
+
     def infix_here(self):
         if self.kind == 'prefix':
             return False
@@ -471,6 +480,10 @@ def stmt_nano(s, st, ind):
         return ['%sset %s %s' % (p, vname(s[1]), expr_nano(s[2], st, False))]
     if t == 'if':
         out = ['%sif %s {' % (p, expr_nano(s[1], st, False))] + stmt_nano(s[2], st, ind + 1)
+        if s[3][0] == 'if' and st.else_if_chain():
+            # `else if c { .. }`: the same tree as `else { if c { .. } }`, spelled as a chain
+            rest = stmt_nano(s[3], st, ind)
+            return out + [p + '} else ' + rest[0].lstrip()] + rest[1:]
         if s[3][0] != 'skip':
             out += ['%s} else {' % p] + stmt_nano(s[3], st, ind + 1)
         return out + [p + '}']
